@@ -12,8 +12,9 @@
 (***************************************************************************)
 EXTENDS Naturals, Sequences, FiniteSets, TLC
 \* "render": the handler answers through the Render service that the Renderer middleware mapped for THIS request
-RouteKinds == {"static", "param", "opt", "regex", "all", "hdr", "render"}
-HasVal(k) == k \in {"param", "opt", "regex", "all", "render"}
+\* "panic": the handler panics with a value naming its request; the Recovery middleware answers with a page that carries it
+RouteKinds == {"static", "param", "opt", "regex", "all", "hdr", "render", "panic"}
+HasVal(k) == k \in {"param", "opt", "regex", "all", "render", "panic"}
 Serial(rq) == [h |-> rq.route, val |-> IF HasVal(rq.route) THEN rq.val ELSE "", tag |-> rq.id,
                url |-> "/p/" \o rq.val, wid |-> rq.id]
 ====
